@@ -227,12 +227,92 @@ func (s *scen) runFault(kind string) {
 	}
 }
 
+// runEmptyHistory: provisioning fault. history.dat exists but holds fewer than
+// 4 bytes (no origin) at the first start, the protocol clock is past slot 0.
+// Conditional scenario: a client that refuses to start is counted and nothing
+// else happens; a client that starts is taken at its word (the origin it
+// reports) and goes through rows -> reports -> restart -> rewritten rows ->
+// sync rounds under the usual wire oracle and history monitor, and the origin
+// it reports after the restart must be the one it used before.
+func (s *scen) runEmptyHistory(size int, clock uint32) {
+	rng := s.rng
+	r := s.r
+	os.MkdirAll(s.env.Dir, 0755)
+	if err := os.WriteFile(filepath.Join(s.env.Dir, client.HistoryFile), make([]byte, size), 0644); err != nil {
+		r.Inconc("cannot create history.dat: " + err.Error())
+		return
+	}
+	if err := s.env.Write(); err != nil { // keeps the existing history.dat
+		r.Inconc("cannot provision client: " + err.Error())
+		return
+	}
+	drv.SetClock(clock)
+	defer drv.SetClock(0)
+	s.header = true
+	s.log = append(s.log, fmt.Sprintf("history.dat of %d bytes at first start, protocol clock at slot %d", size, clock))
+	content := s.content()
+	if err := s.env.WriteEnergy(content); err != nil {
+		r.Inconc("cannot write energy file: " + err.Error())
+		return
+	}
+	run.Op("scenario %d: NewClient on a %d byte history.dat, clock %d", s.idx, size, clock)
+	c, err := drv.StartClient(s.env.Dir)
+	r.Count("emptyhist.scenarios", 1)
+	if err != nil {
+		r.Count("emptyhist.refused_to_start", 1)
+		return
+	}
+	r.Count("emptyhist.started", 1)
+	s.c = c
+	s.origin = c.VerifState().HistoryOffset
+	s.log = append(s.log, fmt.Sprintf("client started, reports history origin %d", s.origin))
+	s.nextSlot = int64(s.origin) + 1
+	s.observe(content)
+	if !s.settle() {
+		return
+	}
+	base := s.appendNew(4 + rng.Intn(6))
+	if !s.publish("rows arrive") || !s.settle() {
+		return
+	}
+	for round := 0; round < 2 && !s.dead; round++ {
+		s.stop()
+		s.r.Count("wire.restarts", 1)
+		s.log = append(s.log, "restart")
+		if !s.start() {
+			return
+		}
+		if o := s.c.VerifState().HistoryOffset; o != s.origin {
+			r.Violationf("history-origin-changed-across-restart", s.replay(), "the client used history origin %d before the restart and reports %d after it (history.dat had %d bytes at first start)", s.origin, o, size)
+		}
+		if !s.settle() {
+			return
+		}
+		n := s.rewriteSome(2+rng.Intn(3), base)
+		base = append(base, s.appendNew(1+rng.Intn(3))...)
+		if !s.publish(fmt.Sprintf("%d stored rows rewritten, new slots", n)) || !s.settle() {
+			return
+		}
+		for i := 0; i < 3 && !s.dead; i++ {
+			s.syncOnce("after restart")
+		}
+		if !s.settle() {
+			return
+		}
+	}
+}
+
 func faultChild(b run.Batch, r *ev.Result) {
 	rng := rand.New(rand.NewSource(b.Seed))
 	var n int
 	fmt.Sscan(b.P("n"), &n)
-	for i := 0; i < n && r.NumViolations() < 30; i++ {
+	// the last two scenarios start a client on an empty history file; a refused start leaves
+	// an unclosable test-mode client behind (process panics by design 120 s later), so they come last
+	for i := 0; i < n+2 && r.NumViolations() < 30; i++ {
 		kind := []string{"read", "write"}[i%2]
+		if i >= n {
+			kind = "emptyhist"
+		}
 		sink, err := drv.NewUDPSink()
 		if err != nil {
 			r.Inconc("cannot open UDP sink: " + err.Error())
@@ -253,13 +333,18 @@ func faultChild(b run.Batch, r *ev.Result) {
 		rng.Read(gca[:])
 		s.env = &drv.ClientEnv{Dir: filepath.Join(b.Dir, fmt.Sprintf("ft%03d", i)), Key: key, GCA: gca, ShortID: id,
 			Servers: []refenc.MapEntry{rs.Entry(sink.Port, false)}, HistoryOrigin: origin, LastSync: drv.FreshSyncStamp()}
-		if err := s.env.Write(); err != nil {
+		if kind == "emptyhist" {
+			s.kind = kind
+			s.origin = 0
+			s.runEmptyHistory((b.Index*2+i)%4, uint32(3+rng.Intn(40)))
+		} else if err := s.env.Write(); err != nil {
 			r.Inconc("cannot provision client: " + err.Error())
 			sink.Close()
 			rs.Close()
 			return
+		} else {
+			s.runFault(kind)
 		}
-		s.runFault(kind)
 		if s.faulty {
 			r.Inconc("scenario ended with the fault still injected")
 		}
@@ -282,7 +367,7 @@ func faultChild(b run.Batch, r *ev.Result) {
 		sink.Close()
 		r.Count("fault.datagrams", int64(len(pkts)))
 		s.judge(pkts, key, id)
-		r.Count("wire.scenarios.fault-"+kind, 1)
+		r.Count("wire.scenarios."+s.kind, 1)
 		if i == 0 && len(s.versions) > 0 {
 			r.Sample(map[string]interface{}{"scenario": s.log, "datagrams": len(pkts), "kind": s.kind})
 		}
